@@ -42,6 +42,9 @@ var tierOf = map[uint64]string{}
 // onlyConc restricts C10 / C16 to their scheduled sub-batch (experiments only).
 var onlyConc = os.Getenv("NUTSIM_ONLY_CONC") != ""
 
+// onlySparse restricts C11 to its sparse-mode sub-batch (experiments only).
+var onlySparse = os.Getenv("NUTSIM_ONLY_SPARSE") != ""
+
 func init() {
 	// ---- C10: process crash
 	mixCrash := func(r *core.Rng, tier string) *prog.Program {
@@ -93,6 +96,15 @@ func init() {
 
 	// ---- C11: power loss with SyncEnable
 	c11gen := func(r *core.Rng, tier string) *prog.Program {
+		if r.Bool(0.15) || onlySparse {
+			// sparse index mode: power fails between transactions only (its
+			// commits are not crash-atomic: known finding K3)
+			kp := gen.KVParams{Modes: []int{2}, Segs: []int64{192, 256, 400, 512}, MinTx: 4, MaxTx: 16, MaxOps: 3, Buckets: 1,
+				Deletes: true, ManyKeys: 0.3, Reopen: 0.1, BadEnds: 0.1}
+			p := gen.KV(r, kp)
+			p.Cfg.Sync = true
+			return p
+		}
 		if r.Bool(0.12) || onlyConc {
 			// power fails while several goroutines are inside transactions
 			cp := gen.ConcParams{Modes: []int{0, 1}, Segs: []int64{128, 192, 256, 512}, MinTasks: 2, MaxTasks: 5, MaxDBs: 1, MaxSteps: 4, DS: []string{"kv", "list", "set", "zset"}}
@@ -122,6 +134,11 @@ func init() {
 			if p.Tasks > 0 {
 				return concCrashExec(seed, p, snapPolicy(tier, false, false, true), false, 0.3)
 			}
+			if p.Cfg.IdxMode == 2 {
+				res := crashExec(seed, p, nil, judgeMode{Recovery: true, ContinueP: 0.3}, run.Options{Deferred: true, BoundaryPL: 3})
+				res.Nontrivial = res.Images >= 3
+				return res
+			}
 			res := crashExec(seed, p, snapPolicy(tier, false, false, true), judgeMode{Recovery: true, ContinueP: 0.3}, run.Options{Deferred: true})
 			res.Nontrivial = res.Images >= 3
 			return res
@@ -132,12 +149,15 @@ func init() {
 		if p.Tasks > 0 {
 			return concCrashExec(seed, p, deepPolicy(false, false, true), false, 0.3)
 		}
+		if p.Cfg.IdxMode == 2 {
+			return crashExec(seed, p, nil, judgeMode{Recovery: true, ContinueP: 0.3}, run.Options{Deferred: true, BoundaryPL: 6})
+		}
 		return crashExec(seed, p, deepPolicy(false, false, true), judgeMode{Recovery: true, ContinueP: 0.3}, run.Options{Deferred: true})
 	}
 	Register(&Spec{
 		ID: "C11", Level: "fault_enumeration",
 		Rule: "as C10 with SyncEnable=true and power-loss images: every file reverts to its content at its last sync plus a seeded choice among its unsynced operations (none / all / an order-prefix with the last one torn / a subset), never-synced creations may vanish, unsynced removals may be undone; " +
-			"required: Open succeeds and observation is S or S+T; one run in eight is a scheduled multi-goroutine program judged like C10's (a prefix of the lock-grant order between 'acknowledged' and 'granted'); non-trivial = at least 3 distinct images",
+			"required: Open succeeds and observation is S or S+T; one run in seven is a sparse-index-mode history with power-loss images of the quiescent state after every transaction, Merge and reopen (nothing in flight: everything acknowledged must survive); one run in eight is a scheduled multi-goroutine program judged like C10's (a prefix of the lock-grant order between 'acknowledged' and 'granted'); non-trivial = at least 3 distinct images",
 		Gen: c11gen, Exec: c11("quick"), Deep: deep11,
 		Classes: classes("recovery", "open-failed", "open-panic"),
 		Assume:  []string{"a sync of a file also makes its directory entry durable (granted by C11)", "directories are durable once created", "fsync/msync make the whole file content durable"},
